@@ -17,7 +17,7 @@ META = {
     "engine": "B (orbit partition of the reference by BFS) + A (all ordered pairs)",
     "rule": "a case = ordered pair of labelled graphs (or stabilizer states) with an entry point and mode; non-trivial = the two graphs differ and at least one has an edge; "
             "distinct = distinct (pair, entry point, mode)",
-    "bounds": {"quick": "all ordered pairs n=2,3,4 (4 + 64 + 4096) both modes; n=5: every graph against every member of its own orbit and one representative of every other orbit (deterministic mode); "
+    "bounds": {"quick": "all ordered pairs n=2,3,4 (4 + 64 + 4096) both modes; n=5: every graph against every member of its own orbit and one representative of every other orbit (deterministic mode and random mode seed 0); "
                         "local complementation on every (graph, vertex) n<=5; lc_check on all 3600 ordered pairs of 2-qubit stabilizer states",
                "thorough": "all 1 048 576 ordered pairs n=5; n=6: every graph against its orbit representative and two other representatives"},
     "assumptions": ["per-call horizon 5 s (lc_graph_operations has unbounded while loops): exceeding it is reported as non-termination",
@@ -161,6 +161,23 @@ def check_pair(acc, n, e1, e2, same, modes, deep):
                     acc.violation("gates", "lc_check", sym, c2, g2.strings(), {"gates": [list(map(str, x)) for x in gates], "image": img.strings()})
             except Exception as e:
                 acc.violation("gates", "lc_check", "malformed-gate-list", c2, "gate tuples", repr(e)[:200])
+    # the same two labelled graphs with their vertices inserted in reverse order: the decision must not change
+    # (which qubit a returned gate index refers to is not documented for such graphs, so only the answer is demanded)
+    acc.evaluations += 1
+    c3 = dict(case, input="nx, vertices inserted in reverse order")
+    try:
+        r1, r2 = nx.Graph(), nx.Graph()
+        for g_, e_ in ((r1, e1), (r2, e2)):
+            g_.add_nodes_from(range(n - 1, -1, -1))
+            g_.add_edges_from(e_)
+        with core.time_limit(HORIZON):
+            ans, _ = lc_check(r1, r2)
+        if bool(ans) != same:
+            acc.violation("decide", "lc_check", "false-yes" if ans else "false-no", c3, same, bool(ans))
+    except Warning as e:
+        acc.violation("gates", "lc_check", "own-validation-fails", c3, "gates mapping state1 to state2", repr(e)[:200])
+    except Exception as e:
+        acc.violation("gates", "lc_check", "raises-" + type(e).__name__, c3, same, repr(e)[:200])
     if same:
         acc.evaluations += 1
         try:
@@ -230,7 +247,7 @@ def run_shard(shard, tier, acc):
                 others = [tuple(sorted(h)) for h in orbits[o1]] + [tuple(sorted(r)) for k, r in enumerate(reps) if k != o1]
             for e2 in others:
                 same = ids[frozenset(e2)] == o1
-                modes = modes_full if n <= 4 else [("deterministic", 0)]
+                modes = modes_full if n <= 4 else ([("deterministic", 0), ("random", 0)] if n == 5 else [("deterministic", 0)])
                 deep = n <= 4 or (same and (gi % 4 == 0))
                 check_pair(acc, n, e1, e2, same, modes, deep)
                 acc.state((n, o1, ids[frozenset(e2)]))
